@@ -17,6 +17,24 @@ Theorem C11_exactly_once : forall c s, wf_config c = true -> reach the_prog c s 
 Proof. exact exactly_once. Qed.
 Print Assumptions C11_exactly_once.
 
+(* Identities: with pairwise distinct event identities in the scenario (wf_config), no identity is ever processed
+   twice, and only identities of the scenario are processed. *)
+Theorem C11_at_most_once_ids : forall c s, wf_config c = true -> reach the_prog c s ->
+  NoDup (map ev_id (begun (log (sh s)))) /\ forall e, In e (begun (log (sh s))) -> In (ev_id e) (all_ids c).
+Proof. exact at_most_once_ids. Qed.
+Print Assumptions C11_at_most_once_ids.
+
+(* ... and every event gets there (without stop(), or before it): in EVERY reachable state every step of every thread
+   decreases [rank] except idle turns of the worker on an empty queue, and as long as the queue is non-empty the started
+   worker has an enabled step, which decreases the rank.  With C11_exactly_once (FIFO) and a fair scheduler every queued
+   event is therefore taken and processed; after stop() this is C11_stop_post. *)
+Theorem C11_processing_progress : forall c s, wf_config c = true -> reach the_prog c s ->
+  (forall t s' l, step the_prog (threaded c) t s = Some (s', l) -> rank s' < rank s \/ (rank s' = rank s /\ idle_step s t l)) /\
+  (queue (sh s) <> [] -> started (sh s) = true -> finished (tworker s) = false ->
+   exists s' l, step the_prog (threaded c) 1 s = Some (s', l) /\ rank s' < rank s).
+Proof. exact processing_progress. Qed.
+Print Assumptions C11_processing_progress.
+
 (* The processed sequence is a prefix of the put sequence; the puts of each thread are a prefix of what that thread
    triggers, in its order: main's and every producer's script, and for the worker (events triggered from inside
    callbacks) the children of the processed events in processing order. *)
